@@ -1318,7 +1318,7 @@ def check_cancel_cli(ck, items=None, pidnum=7, n=None):
     it prints a traceback or creates the missing directory.  Inside Coq: ExecCases.both_ok
     pidnum on every study's full adapter-call trace."""
     if items is None:
-        items = cancel_cli_cases(random.Random(ck.seed * 613 + pidnum), n or (8 if ck.tier != "thorough" else 64))
+        items = cancel_cli_cases(random.Random(ck.seed * 613 + pidnum), n or (10 if ck.tier != "thorough" else 80))
     tag = utag("C%02d_cancelcli" % pidnum)
     work = os.path.join(common.WORK, tag + "_runs")
     shutil.rmtree(work, ignore_errors=True)
